@@ -945,6 +945,18 @@ func (w *World) funcObj(c *Contract) *types.Func {
 		}
 		scope = ext.Scope()
 		name = rest
+		if strings.HasPrefix(name, "(") {
+			// path.(*T).M / path.(T).M
+			if cl := strings.Index(name, ")"); cl > 0 && cl+2 <= len(name) {
+				tn := strings.TrimPrefix(name[1:cl], "*")
+				if tobj, _ := scope.Lookup(tn).(*types.TypeName); tobj != nil {
+					obj, _, _ := types.LookupFieldOrMethod(types.NewPointer(tobj.Type()), true, ext, name[cl+2:])
+					fn, _ := obj.(*types.Func)
+					return fn
+				}
+			}
+			return nil
+		}
 		if i := strings.Index(name, "."); i >= 0 {
 			tobj, _ := scope.Lookup(name[:i]).(*types.TypeName)
 			if tobj == nil {
@@ -1064,6 +1076,11 @@ func (f *Frame) pureApply(c *Contract, fn *types.Func, recv Val, args []Val, st 
 			in.D.declareOnce("ufcanon:"+name, fmt.Sprintf("(assert %s)", Forall(append(vars, jv), body, []Term{sel}).S))
 			// consequence (canonical + extensionality), stated so that the solvers need not find it:
 			// equal byte-string views of two results mean equal results
+			if c.Opts["strinj"] == "" {
+				// only on request (`opt strinj yes`): the two-trigger axiom slows unrelated goals down
+				res = append(res, in.thaw(t, rt, f))
+				continue
+			}
 			var vars2 []Term
 			for i, s := range sorts {
 				vars2 = append(vars2, Term{S: fmt.Sprintf("b%d", i), Sort: s})
